@@ -176,8 +176,14 @@ def decide(o):
             res['verdict'] = 'inconclusive'
             res['why'] = 'solver model does not replay on the real code: %s' % res['unconfirmed'][0]['kind']
         elif res['ok_paths'] + res['raised_paths'] == 0:
-            res['verdict'] = 'inconclusive'
-            res['why'] = 'vacuous: every path aborted %s' % res['aborted']
+            arith = ('inf-inf', 'division by zero', 'inf*0', 'inf/inf', 'nan', 'inf in ')
+            if res['aborted'] and all(k.startswith(arith) for k in res['aborted']):
+                # the formula is undefined on every path (e.g. inf-inf at the trace boundary): nothing to claim
+                res['verdict'] = 'outside'
+                res['why'] = 'arithmetic domain error on every path %s' % res['aborted']
+            else:
+                res['verdict'] = 'inconclusive'
+                res['why'] = 'vacuous: every path aborted %s' % res['aborted']
     except Inconclusive as e:
         res['verdict'] = 'inconclusive'
         res['why'] = str(e)
@@ -384,6 +390,7 @@ def finish(prop, tier, seed, mod, results, wall):
             'obligations_violated_known_finding': len([r for r in results if r['verdict'] == 'violated'
                                                        and all('known' in f for f in r['fail'])]),
             'obligations_inconclusive': n_inc,
+            'obligations_outside_claim_arithmetic_domain': len([r for r in results if r['verdict'] == 'outside']),
             'assertions_decided': tot('asserts'),
             'solver_queries': tot('queries'), 'solver_time_s': round(tot('solver_s'), 2),
             'aborted_paths_outside_claim': aborted,
@@ -410,7 +417,7 @@ def finish(prop, tier, seed, mod, results, wall):
              n_known, n_viol, n_inc, tot('paths'), tot('queries'), tot('solver_s'), wall))
     if n_viol:
         return EXIT_VIOLATION
-    if n_inc or not results:
+    if n_inc or not holds:
         return EXIT_HARNESS
     return EXIT_OK
 
